@@ -85,48 +85,60 @@ static double bfAt(const Factors & S, const BasisFunction & b, const Factors & x
     return b.values[toIndexPartial(b.tag, S, x)];
 }
 
+// one call of a FactoredLP object (possibly already used): reads <addConst> <C> <b>, prints the
+// result, the recorded rows/solution, and the flat LP solved through the same wrapper
+static void runFlpCall(Factored::MDP::FactoredLP & flp, const State & S, vio::Cursor & c, vio::Out & o) {
+    bool addConst = c.nextSize() != 0;
+    FactoredVector C = readFV(c), b = readFV(c);
+
+    // ---- the factored LP under test (recorded)
+    g_rec.reset(); g_rec.on = true;
+    std::optional<Vector> w;
+    try { w = flp(C, b, addConst); } catch (...) { g_rec.on = false; throw; }
+    g_rec.on = false;
+
+    o << (w ? 1 : 0);
+    if (w) o.list(w->data(), w->data() + w->size()); else o << (size_t) 0;
+    dumpRecorder(o);
+
+    // ---- the flat LP: one pair of rows per joint assignment, same wrapper
+    const size_t nW = C.bases.size() + (addConst ? 1 : 0);
+    LP lp(nW + 1);
+    lp.setObjective(nW, false);
+    const size_t N = factorSpace(S);
+    for (size_t id = 0; id < N; ++id) {
+        Factors x = toFactors(S, id);
+        double target = 0.0;
+        for (auto & f : b.bases) target += bfAt(S, f, x);
+        lp.row.setZero();
+        for (size_t k = 0; k < C.bases.size(); ++k) lp.row[k] = bfAt(S, C.bases[k], x);
+        if (addConst) lp.row[nW - 1] = 1.0;
+        lp.row[nW] = -1.0;
+        lp.pushRow(LP::Constraint::LessEqual, target);       //  Cw - phi <= b
+        for (size_t k = 0; k < nW; ++k) lp.row[k] = -lp.row[k];
+        lp.pushRow(LP::Constraint::LessEqual, -target);      // -Cw - phi <= -b
+    }
+    for (size_t i = 0; i < nW + 1; ++i) lp.setUnbounded(i);
+    double obj = 0.0;
+    auto fw = lp.solve(nW + 1, &obj);
+    o << "FLAT" << (fw ? 1 : 0) << obj;
+    if (fw) o.list(fw->data(), fw->data() + fw->size()); else o << (size_t) 0;
+}
+
 int main(int argc, char ** argv) {
     return vio::runCases(argc, argv, [](vio::Cursor & c, vio::Out & o) {
         const std::string kind = c.next();
         if (kind == "flp") {
-            // flp <S> <addConst> <C: n {tag vals}> <b: n {tag vals}>
+            // flp <S> <addConst> <C: n {tag vals}> <b: n {tag vals}>   — a fresh object, one call
             State S = readFactors(c);
-            bool addConst = c.nextSize() != 0;
-            FactoredVector C = readFV(c), b = readFV(c);
-
-            // ---- the factored LP under test (recorded)
-            g_rec.reset(); g_rec.on = true;
             Factored::MDP::FactoredLP flp(S);
-            std::optional<Vector> w;
-            try { w = flp(C, b, addConst); } catch (...) { g_rec.on = false; throw; }
-            g_rec.on = false;
-
-            o << (w ? 1 : 0);
-            if (w) o.list(w->data(), w->data() + w->size()); else o << (size_t) 0;
-            dumpRecorder(o);
-
-            // ---- the flat LP: one pair of rows per joint assignment, same wrapper
-            const size_t nW = C.bases.size() + (addConst ? 1 : 0);
-            LP lp(nW + 1);
-            lp.setObjective(nW, false);
-            const size_t N = factorSpace(S);
-            for (size_t id = 0; id < N; ++id) {
-                Factors x = toFactors(S, id);
-                double target = 0.0;
-                for (auto & f : b.bases) target += bfAt(S, f, x);
-                lp.row.setZero();
-                for (size_t k = 0; k < C.bases.size(); ++k) lp.row[k] = bfAt(S, C.bases[k], x);
-                if (addConst) lp.row[nW - 1] = 1.0;
-                lp.row[nW] = -1.0;
-                lp.pushRow(LP::Constraint::LessEqual, target);       //  Cw - phi <= b
-                for (size_t k = 0; k < nW; ++k) lp.row[k] = -lp.row[k];
-                lp.pushRow(LP::Constraint::LessEqual, -target);      // -Cw - phi <= -b
-            }
-            for (size_t i = 0; i < nW + 1; ++i) lp.setUnbounded(i);
-            double obj = 0.0;
-            auto fw = lp.solve(nW + 1, &obj);
-            o << "FLAT" << (fw ? 1 : 0) << obj;
-            if (fw) o.list(fw->data(), fw->data() + fw->size()); else o << (size_t) 0;
+            runFlpCall(flp, S, c, o);
+        } else if (kind == "flpr") {
+            // flpr <S> <ncalls> {<addConst> <C> <b>}*   — ONE FactoredLP object called ncalls times
+            State S = readFactors(c);
+            Factored::MDP::FactoredLP flp(S);
+            const size_t n = c.nextSize();
+            for (size_t i = 0; i < n; ++i) { o << "CALL"; runFlpCall(flp, S, c, o); }
         } else if (!mdpCase(kind, c, o)) {
             throw std::logic_error("unknown case kind " + kind);
         }
